@@ -134,8 +134,35 @@ def err_kind(e):
 
 
 # ------------------------------------------------------------------ registries
+# context PAIRS that agree on everything (name or anonymity, no rules, no defaults, ONE redefinition) but
+# redefine the same unit to different values; 'rx' is registered with the first variant and can be
+# replaced (remove_context + add_context) by a same-named context holding another one
+CTX_VARIANTS = {"p500": 500, "p250": 250}
+
+
+def make_ctx(name, variant):
+    import pint
+    c = pint.Context(name) if name else pint.Context()
+    c.redefine(f"pound = {CTX_VARIANTS[variant]} * gram")
+    return c
+
+
+def enable_token(ureg, token):
+    """bring a registry to the declarative state 'this context is active' (tokens of World.state)"""
+    if token.startswith("anon:"):
+        ureg.enable_contexts(make_ctx(None, token[5:]))
+    elif token.startswith("rx@"):
+        if token[3:] != "p500":
+            ureg.remove_context("rx")
+            ureg.add_context(make_ctx("rx", token[3:]))
+        ureg.enable_contexts("rx")
+    else:
+        ureg.enable_contexts(token)
+
+
 def add_contexts(ureg):
     import pint
+    ureg.add_context(make_ctx("rx", "p500"))
     for name, redefs in CTX.items():
         if name in RULES:
             continue
@@ -189,6 +216,7 @@ class World:
     def __init__(self, base):
         self.regs = [base, None]
         self.q = [None, None]
+        self.rxvar = ["p500", "p500"]
         self.state = [(), (), "mks"], [(), (), "mks"]      # defs (sorted tuple), active (oldest first), default system
 
     def decl(self, r):
@@ -222,9 +250,18 @@ class World:
                 ureg.define(DEFS[op[1]]["line"])
                 st[0] = tuple(sorted(set(st[0]) | {op[1]}))
                 return ("done",)
+            if k == "enable_anon":
+                ureg.enable_contexts(make_ctx(None, op[1]))
+                st[1] = st[1] + ("anon:" + op[1],)
+                return ("done",)
+            if k == "readd":
+                ureg.remove_context("rx")
+                ureg.add_context(make_ctx("rx", op[1]))
+                self.rxvar[r] = op[1]
+                return ("done",)
             if k == "enable":
                 ureg.enable_contexts(op[1])
-                st[1] = st[1] + (op[1],)
+                st[1] = st[1] + ((op[1] + "@" + self.rxvar[r]) if op[1] == "rx" else op[1],)
                 return ("done",)
             if k == "disable":
                 ureg.disable_contexts(1)
@@ -290,6 +327,7 @@ class World:
             self.regs[1] = new_registry()
             self.q[1] = None
             self.state[1][:] = [(), (), "mks"]
+            self.rxvar[1] = "p500"
             return 1, ("done",)
         if op[0] == "other":
             if self.regs[1] is None:
@@ -462,7 +500,7 @@ class Fresh:
         def child():
             import numpy as np
             for c in active:
-                ureg.enable_contexts(c)
+                enable_token(ureg, c)
             if system != "mks":
                 ureg.default_system = system
             w = World(ureg)
@@ -628,6 +666,10 @@ def op_kind(op, klass, dflt="?"):
         return "other:create"
     if k == "usefloat":
         return "float-registry"
+    if k == "enable_anon":
+        return "enable[redef-anonymous]"
+    if k == "readd":
+        return "replace-context"
     if k in ("tconvert", "tto", "tcompact"):
         return {"tconvert": "convert", "tto": "quantity.to", "tcompact": "to_compact"}[k] + f"[{op[-2]}]"
     name = {"convert": "convert", "parse": "parse", "parse_ci": "parse[case-insensitive]", "root": "get_root_units", "dim": "get_dimensionality",
@@ -642,7 +684,7 @@ def op_kind(op, klass, dflt="?"):
     if k == "define" and DEFS[op[1]].get("prefix"):
         name += "[prefix]"
     if k == "enable":
-        name += "[redef]" if op[1] in REDEF else "[rules]" if op[1] in RULES else "[plain]"
+        name += "[redef]" if op[1] in REDEF or op[1] == "rx" else "[rules]" if op[1] in RULES else "[plain]"
     return name
 
 
@@ -1012,6 +1054,24 @@ TYPED_ALPHABET = ([("tto", "km", "meter", mt, "3") for mt in MTYPES]
                      ("tcompact", "meter", "Decimal", "1500"), ("tcompact", "meter", "int", "1500")])
 
 
+# pairs of DISTINCT contexts that agree on everything but the value of their one redefinition, enabled one
+# after the other (both orders come with the tree); compared with the fresh registry only
+CTXPAIR_ALPHABET = [("enable_anon", "p500"), ("enable_anon", "p250"), ("disable",),
+                    ("convert", "stone", "gram"), ("base", "stone", None), ("root", "stone")]
+
+
+def context_replacement_histories():
+    """remove_context + add_context of a same-named context with another redefinition, around queries"""
+    hs = []
+    for q in [("convert", "stone", "gram"), ("base", "stone", None), ("root", "stone"), ("convert", "pound", "gram")]:
+        hs.append([("enable", "rx"), q, ("disable",), ("readd", "p250"), ("enable", "rx"), q, ("disable",), q])
+        hs.append([("readd", "p250"), ("enable", "rx"), q, ("disable",), ("readd", "p500"), ("enable", "rx"), q])
+        hs.append([("enable", "rx"), ("disable",), ("readd", "p250"), ("enable", "rx"), q])
+        hs.append([("enable", "rx"), q, ("readd", "p250"), ("enable", "rx"), q, ("disable",), q, ("disable",), q])
+        hs.append([("enable_anon", "p500"), q, ("disable",), ("enable", "rx"), q, ("disable",), ("enable_anon", "p250"), q])
+    return hs
+
+
 WITNESSES = {
     # quirk index in QK: (history, description)
     0: [("parse", "kiloinch"), ("parse", "millikiloinch")],
@@ -1333,6 +1393,8 @@ def _run(ck, rng, thorough, klass, tk, systems, fresh, chk, coq_ok):
         hists.append(("wit", i, h))
     for i, h in enumerate(isolation_histories()):
         hists.append(("iso", i, h))
+    for i, h in enumerate(context_replacement_histories()):
+        hists.append(("orc", 1000 + i, h))
     recs = parallel(lambda t: run_history(t[2]), hists)
     # exhaustive exploration: one fork tree per first operation
     T["histories"] = time.time()
@@ -1348,6 +1410,7 @@ def _run(ck, rng, thorough, klass, tk, systems, fresh, chk, coq_ok):
     depth_t = 4 if thorough else 3
     trees_t = parallel(lambda op: explore(TYPED_ALPHABET, depth_t, [op]), TYPED_ALPHABET)
     trees_tf = parallel(lambda op: explore(TYPED_ALPHABET, depth_t + 1, [("usefloat",), op]), TYPED_ALPHABET)
+    trees_x = parallel(lambda op: explore(CTXPAIR_ALPHABET, 4, [op]), CTXPAIR_ALPHABET)
     depth_c = 4 if thorough else 3
     trees_c = parallel(lambda op: explore(COMPACT_ALPHABET, depth_c, [op]), COMPACT_ALPHABET)
     T["exhaustive"] = time.time()
@@ -1385,6 +1448,10 @@ def _run(ck, rng, thorough, klass, tk, systems, fresh, chk, coq_ok):
         p = precs[0]
         flat.append(([op0], p[1], p[2], p[3], p[4]))
         flatten_tree([op0], kids, flat)
+    for op0, (precs, kids) in zip(CTXPAIR_ALPHABET, trees_x):
+        p = precs[0]
+        flat.append(([op0], p[1], p[2], p[3], p[4]))
+        flatten_tree([op0], kids, flat)
     n_compact = len(flat) - n_general - n_base - n_rules
     for op0, (precs, kids) in zip(FORMAT2_ALPHABET, trees_f):
         p = precs[0]
@@ -1402,12 +1469,12 @@ def _run(ck, rng, thorough, klass, tk, systems, fresh, chk, coq_ok):
     ck.extra["exhaustive_histories"] = len(flat)
     ck.extra["exhaustive_depth"] = {"12-op alphabet": depth, f"{len(alpha_b)}-op base-units alphabet": depth_b,
                                     "8-op rule-contexts alphabet (oracle only)": depth_r,
-                                    "9-op to_compact x definitions alphabet (oracle only)": depth_c,
+                                    "9-op to_compact x definitions alphabet (oracle only)": depth_c, "6-op context-pairs alphabet (oracle only)": 4,
                                     "7-op two-registry formatting alphabet (oracle only)": depth_f,
                                     "8-op typed-magnitude alphabet, Fraction and float registry (oracle only)": depth_t}
     ck.extra["exhaustive_histories_by_alphabet"] = {"12-op alphabet": n_general, f"{len(alpha_b)}-op base-units alphabet": n_base,
                                                     "8-op rule-contexts alphabet (oracle only)": n_rules,
-                                                    "9-op to_compact x definitions alphabet (oracle only)": n_compact,
+                                                    "9-op to_compact x definitions + 6-op context-pairs alphabets (oracle only)": n_compact,
                                                     "7-op two-registry formatting alphabet (oracle only)": n_fmt,
                                                     "8-op typed-magnitude alphabet, Fraction and float registry (oracle only)": len(flat) - n_general - n_base - n_rules - n_compact - n_fmt}
     for h, rr, ans, before, qu in flat:
